@@ -14,23 +14,35 @@ use std::time::Instant;
 
 pub const VERIF_ROOT: &str = "/verif";
 
-#[derive(Clone, Copy, Debug, PartialEq, Eq)]
+/// Depth of the scenario grids. The command-line tiers map onto it with a shift: `--tier quick` runs depth 2
+/// (`Thorough`), `--tier thorough` runs depth 3 (`Deep`); depth 1 (`Quick`) is the smoke level used while developing and
+/// by checks whose depth-2 grid does not fit the one-minute budget of the quick tier (`--depth` overrides the mapping).
+#[derive(Clone, Copy, Debug, PartialEq, Eq, PartialOrd, Ord)]
 pub enum Tier {
     Quick,
     Thorough,
+    Deep,
 }
 
 impl Tier {
-    pub fn as_str(self) -> &'static str {
+    pub fn depth(self) -> u8 {
         match self {
-            Tier::Quick => "quick",
-            Tier::Thorough => "thorough",
+            Tier::Quick => 1,
+            Tier::Thorough => 2,
+            Tier::Deep => 3,
+        }
+    }
+    pub fn from_depth(d: u8) -> Tier {
+        match d {
+            0 | 1 => Tier::Quick,
+            2 => Tier::Thorough,
+            _ => Tier::Deep,
         }
     }
     pub fn pick<T>(self, quick: T, thorough: T) -> T {
         match self {
             Tier::Quick => quick,
-            Tier::Thorough => thorough,
+            _ => thorough,
         }
     }
 }
@@ -38,7 +50,10 @@ impl Tier {
 #[derive(Clone, Debug)]
 pub struct Args {
     pub prop: String,
+    /// depth of the scenario grids (see `Tier`)
     pub tier: Tier,
+    /// the command-line tier (quick / thorough), as recorded in the evidence
+    pub tier_name: String,
     pub seed: u64,
     pub replay: Option<PathBuf>,
     pub workers: usize,
@@ -57,9 +72,10 @@ impl Args {
         let prop = it.next().unwrap_or_else(|| machinery("usage: <bin> <PROP> [--tier ..]"));
         let mut a = Args {
             prop,
-            tier: match std::env::var("VERIF_TIER").as_deref() {
-                Ok("thorough") => Tier::Thorough,
-                _ => Tier::Quick,
+            tier: Tier::Thorough,
+            tier_name: match std::env::var("VERIF_TIER").as_deref() {
+                Ok("thorough") => "thorough".into(),
+                _ => "quick".into(),
             },
             seed: std::env::var("VERIF_SEED")
                 .ok()
@@ -75,15 +91,17 @@ impl Args {
             verbose: false,
             extra: vec![],
         };
+        let mut depth: Option<u8> = None;
         while let Some(x) = it.next() {
             match x.as_str() {
                 "--tier" => {
-                    a.tier = match it.next().as_deref() {
-                        Some("quick") => Tier::Quick,
-                        Some("thorough") => Tier::Thorough,
+                    a.tier_name = match it.next().as_deref() {
+                        Some("quick") => "quick".into(),
+                        Some("thorough") => "thorough".into(),
                         other => machinery(&format!("bad tier {other:?}")),
                     }
                 }
+                "--depth" => depth = Some(it.next().unwrap().parse::<u8>().unwrap_or_else(|_| machinery("bad depth"))),
                 "--replay" => a.replay = Some(PathBuf::from(it.next().unwrap())),
                 "--workers" => a.workers = it.next().unwrap().parse().unwrap(),
                 "--profile" => a.profile = it.next().unwrap(),
@@ -93,6 +111,7 @@ impl Args {
                 _ => a.extra.push(x),
             }
         }
+        a.tier = Tier::from_depth(depth.unwrap_or(if a.tier_name == "thorough" { 3 } else { 2 }));
         a
     }
 }
@@ -403,12 +422,13 @@ impl Report {
         }
         coverage.insert("known_findings_hit".into(), json!(known_hits.iter().map(|(k, v)| (k.clone(), v.1)).collect::<BTreeMap<_, _>>()));
         coverage.insert("profile".into(), json!(self.args.profile));
+        coverage.insert("grid_depth".into(), json!(self.args.tier.depth()));
         for (k, v) in inner.extra {
             coverage.insert(k, v);
         }
         let ev = json!({
             "property_id": prop,
-            "tier": self.args.tier.as_str(),
+            "tier": self.args.tier_name,
             "seed": self.args.seed,
             "level": self.level,
             "coverage": Value::Object(coverage),
@@ -431,7 +451,7 @@ impl Report {
         }
         println!(
             "SUMMARY property={prop} part={part_tag} tier={} profile={} evaluations={} distinct_nontrivial={} classes={} violations={} known={} wall_s={:.2}",
-            self.args.tier.as_str(),
+            format!("{}(depth {})", self.args.tier_name, self.args.tier.depth()),
             self.args.profile,
             inner.evaluations,
             distinct,
